@@ -432,3 +432,34 @@ def big_funnels():
                     att.append((last, last))
             res.append(af(n, att, "bigfunnel_%d_%d_%s" % (k, d, variant)))
     return res
+
+
+def many_sources(seed, count):
+    """frameworks with 64-200 unattacked arguments spread over the id space; arguments defended only by the JOINT action of two sources
+    that are far apart, followed by chains; a few even cycles (undecided part).  Everything but the cycles is decided by the grounded
+    extension: the reduct is small whatever the size."""
+    rng = random.Random(seed)
+    res = []
+    for i in range(count):
+        n_src = [64, 65, 66, 70, 129, 200][i % 6]
+        groups = rng.randint(8, 25)
+        cycles = rng.randint(0, 4)
+        n = n_src + groups * 5 + cycles * 2
+        labels = list(range(1, n + 1))
+        rng.shuffle(labels)
+        it = iter(labels)
+        src = [next(it) for _ in range(n_src)]
+        att = []
+        for _ in range(groups):
+            b1, b2, x, y, z = (next(it) for _ in range(5))
+            p, q = rng.sample(src, 2)
+            att += [(p, b1), (q, b2), (b1, x), (b2, x), (x, y), (y, z)]
+            if rng.random() < 0.3:
+                att.append((z, rng.choice(src + [x])))      # attacks on grounded arguments from defeated / defended ones
+        for _ in range(cycles):
+            a, b = next(it), next(it)
+            att += [(a, b), (b, a)]
+            if rng.random() < 0.5:
+                att.append((rng.choice(src), a))
+        res.append(af(n, att, "manysrc#big"))
+    return res
